@@ -21,7 +21,9 @@ def main():
     want = os.path.realpath(os.environ.get('GT_SRC', '/repo/src'))
     assert src == want, 'gambatools imported from %s, expected %s' % (src, want)
     out = []
+    import conv
     for c in cases:
+        conv.new_case()
         try:
             out.append(mod.observe(c))
         except BaseException as e:  # harness-level failure: recorded, reported by the driver
